@@ -189,7 +189,15 @@ fn gen_json(t: &mut Tape, depth: usize, width: usize, st: &mut Stats) -> Value {
                 let v = t.range(-4000, 4000) as f64 / 8.0;
                 json!(v)
             }
-            _ => Value::String(arb_text(t, 4)),
+            _ => {
+                if t.chance(1, 12) {
+                    // text that merely looks like something else: a handle, a number, a keyword of the format
+                    st.class("json-string-that-looks-like-a-handle-or-a-scalar");
+                    Value::String(t.pick(&["handle:", "handle:17", "handle:x y", "handle", "true", "null", "12", "-0", "1e3", "[]", "{}"]).to_string())
+                } else {
+                    Value::String(arb_text(t, 4))
+                }
+            }
         }
     } else if t.flip() {
         let n = t.len(width);
@@ -250,7 +258,8 @@ fn has_null(v: &Value) -> bool {
 
 fn looks_like_handle(v: &Value) -> bool {
     match v {
-        Value::String(s) => s.starts_with("handle:"),
+        // only strings that could be a live handle (the prefix followed by a long token); short look-alikes are data
+        Value::String(s) => s.starts_with("handle:") && s.len() >= 20,
         Value::Array(a) => a.iter().any(looks_like_handle),
         Value::Object(m) => m.values().any(looks_like_handle),
         _ => false,
@@ -465,7 +474,7 @@ pub fn property() -> Property {
         sections: vec![
             Section { name: "text", plan: |t| match t { Tier::Quick => Plan::Random { cases: 100_000, max_len: 60 }, Tier::Thorough => Plan::Random { cases: 8_000_000, max_len: 100 } }, case: case_text, min_classes: &[("empty-text", 1000), ("text-with-nul", 1000), ("text-starting-with-bom", 100), ("text-longer-than-4096-bytes", 800)] },
             Section { name: "hex", plan: |t| match t { Tier::Quick => Plan::Random { cases: 40_000, max_len: 6 }, Tier::Thorough => Plan::Random { cases: 2_000_000, max_len: 6 } }, case: case_hex, min_classes: &[] },
-            Section { name: "json", plan: |t| match t { Tier::Quick => Plan::Random { cases: 60_000, max_len: 400 }, Tier::Thorough => Plan::Skip }, case: case_json_q, min_classes: &[("json-depth-2", 5000), ("json-with-null", 5000), ("json-hazardous-key", 5000), ("json-output-variable-holds-an-earlier-document", 5000), ("json-nested-deeper-than-64", 200), ("json-with-over-1000-members", 200)] },
+            Section { name: "json", plan: |t| match t { Tier::Quick => Plan::Random { cases: 60_000, max_len: 400 }, Tier::Thorough => Plan::Skip }, case: case_json_q, min_classes: &[("json-depth-2", 5000), ("json-with-null", 5000), ("json-hazardous-key", 5000), ("json-string-that-looks-like-a-handle-or-a-scalar", 3000), ("json-output-variable-holds-an-earlier-document", 5000), ("json-nested-deeper-than-64", 200), ("json-with-over-1000-members", 200)] },
             Section { name: "json-deep", plan: |t| match t { Tier::Quick => Plan::Skip, Tier::Thorough => Plan::Random { cases: 4_000_000, max_len: 1500 } }, case: case_json_t, min_classes: &[] },
             Section { name: "properties", plan: |t| match t { Tier::Quick => Plan::Random { cases: 60_000, max_len: 160 }, Tier::Thorough => Plan::Random { cases: 4_000_000, max_len: 200 } }, case: case_properties, min_classes: &[("properties-latin1-range", 2000), ("properties-astral", 2000), ("properties-edge-space", 2000), ("properties-refused-load-before-the-read-back", 5000)] },
         ],
